@@ -172,7 +172,8 @@ struct HistEngine : Engine {
 	Plan generate_grammar(Rng &r, const Config &cfg)
 	{
 		Plan p;
-		inv::Inv iv = inv::rand_inv(r, nullptr, false, true);
+		inv::GenOpt go;
+		inv::Inv iv = inv::rand_inv(r, go);
 		p.argv = inv::inv_argv(iv);
 		for (auto &z : iv.zones)
 			embed_zone(p, z);
